@@ -62,6 +62,7 @@ var (
 	errPresent    = errors.New("present-out-of-range")
 	errNilMember  = errors.New("nil-nonoptional")
 	errAmbiguous  = errors.New("AMBIGUOUS") // the reference has no opinion (harness skips the case)
+	errNoRef      = errors.New("NOREF")     // the tag language does not say what the bytes are (no reference), but the value must still round-trip
 	errUnsupKind  = errors.New("AMBIGUOUS-kind")
 	bitStringType = reflect.TypeOf(asn.BitString{})
 	octetType     = reflect.TypeOf(asn.OctetString{})
@@ -222,6 +223,13 @@ func (e *refEnc) encode(v reflect.Value, p rparams) ([]byte, error) {
 			if p.set {
 				tag = 17
 			}
+			if p.set && v.Len() > 0 {
+				// "set" on a list says SET OF; whether it also turns constructed elements into SETs is not
+				// something the tag language defines (the codec passes the flag down on both sides)
+				if universalConstructed(t.Elem()) {
+					return nil, errNoRef
+				}
+			}
 			ep := rparams{str: p.str}
 			for i := 0; i < v.Len(); i++ {
 				cm := len(e.spans)
@@ -333,6 +341,32 @@ func (e *refEnc) encode(v reflect.Value, p rparams) ([]byte, error) {
 		e.spans = append(e.spans, span{len(hd), len(hd) + len(content), "content:" + what})
 	}
 	return append(hd, content...), nil
+}
+
+// universalConstructed: a value of the type is encoded under the universal SEQUENCE / SET tag.
+func universalConstructed(t reflect.Type) bool {
+	for t.Kind() == reflect.Ptr {
+		t = t.Elem()
+	}
+	if t == octetType || t == bitStringType {
+		return false
+	}
+	switch t.Kind() {
+	case reflect.Slice:
+		return true
+	case reflect.Struct:
+		if t.NumField() == 0 {
+			return false
+		}
+		switch t.Field(0).Name {
+		case "Present":
+			return false
+		case "Value", "List":
+			return universalConstructed(t.Field(0).Type)
+		}
+		return true
+	}
+	return false
 }
 
 func (e *refEnc) noteHeader(tag uint64, l int) {
